@@ -36,6 +36,7 @@ fn gen(seed: u64, idx: u64, _tier: Tier) -> Plan {
     plan.world.round_robin = true;
     plan.world.rcv_cap = 4096;
     s.source = if rng.chance(1, 2) { ConfigSource::File } else { ConfigSource::Env };
+    file_layout(&mut rng, &mut s);
     // workers: every value 1..=16 is covered by idx; half explicit, half defaulted through the
     // simulated core count
     let workers = 1 + (idx % 16) as i64;
